@@ -1,6 +1,6 @@
 #!/usr/bin/env python3
 """dev helper: build the Verus file for one generated.rs and run verus.
-usage: dev.py <generated.rs> <out.rs> [--skeleton-only] [verus args...]"""
+usage: dev.py <generated.rs> <out.rs> [--skeleton-only] [--grammar file.llw] [verus args...]"""
 import sys, os, subprocess, json, re
 sys.path.insert(0, os.path.dirname(os.path.abspath(__file__)))
 import assemble, annotate
@@ -10,13 +10,18 @@ rest = sys.argv[3:]
 skel = "--skeleton-only" in rest
 if skel:
     rest.remove("--skeleton-only")
-sc = [assemble.read(os.path.join(assemble.CONTRACTS, "skeleton.vspec"))]
 rep = {}
+if "--grammar" in rest:
+    i = rest.index("--grammar")
+    rep["grammar_text"] = open(rest[i + 1]).read()
+    del rest[i:i + 2]
+sc = [assemble.read(os.path.join(assemble.CONTRACTS, "skeleton.vspec"))]
 try:
     txt = assemble.build(open(gen).read(), sc, annotate=lambda ix, ed, r: annotate.annotate(ix, ed, r, skeleton_only=skel), report=rep)
 except Lost as e:
     print("LOST:", e); sys.exit(2)
 open(out, "w").write(txt)
+rep.pop("grammar_text", None)
 json.dump(rep, open(out + ".report.json", "w"), indent=1, default=str)
 r = subprocess.run(["verus", out, "--triggers-mode", "silent"] + rest)
 sys.exit(r.returncode)
